@@ -157,6 +157,19 @@ var statusVals = []statusV{
 	{name: "no-status", noStatus: true},
 }
 
+// Format attribute of the Response and Assertion Issuer elements: whatever it says, the value must be the IdP's entity ID.
+var c03IssuerFormats = []struct {
+	name   string
+	rf, af *string
+}{
+	{"entity", nil, nil},
+	{"no-format", samlgen.S(""), samlgen.S("")},
+	{"resp-unspecified", samlgen.S("urn:oasis:names:tc:SAML:1.1:nameid-format:unspecified"), nil},
+	{"resp-persistent", samlgen.S("urn:oasis:names:tc:SAML:2.0:nameid-format:persistent"), nil},
+	{"assertion-unspecified", nil, samlgen.S("urn:oasis:names:tc:SAML:1.1:nameid-format:unspecified")},
+	{"both-arbitrary", samlgen.S("urn:example:whatever"), samlgen.S("urn:example:whatever")},
+}
+
 type c03cfg struct {
 	lay       harness.Layout
 	entitySet bool
@@ -212,6 +225,8 @@ func runC03(c *core.Ctx) {
 			return []string{"bearer", "conf1-holder-of-key", "conf2-sender-vouches", "all-holder-of-key"}[i]
 		}},
 		{Name: "idpinit", N: 2, Label: func(i int) string { return []string{"off", "AllowIDPInitiated"}[i] }},
+		{Name: "issuerFormat", N: len(c03IssuerFormats), Label: func(i int) string { return c03IssuerFormats[i].name }},
+		{Name: "irt", N: 2, Label: func(i int) string { return []string{"answers-request", "InResponseTo-absent-everywhere"}[i] }},
 	}
 	k := 2
 	if c.Thorough() {
@@ -274,6 +289,13 @@ func runC03(c *core.Ctx) {
 		case 3:
 			for i := range a.Confirmations {
 				a.Confirmations[i].Method = hok
+			}
+		}
+		resp.IssuerFormat, a.IssuerFormat = c03IssuerFormats[idx[9]].rf, c03IssuerFormats[idx[9]].af
+		if idx[10] == 1 { // an unsolicited response: acceptable only where IdP-initiated login is allowed
+			resp.InResponseTo = nil
+			for i := range a.Confirmations {
+				a.Confirmations[i].InResponseTo = nil
 			}
 		}
 		resp.Destination = destVal(idx[4])
@@ -347,7 +369,7 @@ func runC03(c *core.Ctx) {
 		st := statusVals[idx[6]]
 		statusOnly := false
 		if !st.topSuccess {
-			statusOnly = !reject && !dc
+			statusOnly = !reject && !dc && idx[7] == 0 && idx[9] == 0 && idx[10] == 0
 			reject = true
 		}
 		switch {
@@ -359,13 +381,20 @@ func runC03(c *core.Ctx) {
 		if idx[7] != 0 {
 			return core.DontCare, false // no obligation to accept assertions whose confirmations are not all bearer
 		}
+		if idx[9] != 0 {
+			return core.DontCare, false // no obligation to accept issuers declared in a non-entity format
+		}
+		if idx[10] == 1 {
+			return core.DontCare, false // unsolicited: C04's subject; here only "never accept what is addressed elsewhere" matters
+		}
 		return core.MustAccept, false
 	}
 
 	docCache := map[string][]byte{}
 	c.Group("fields-x-config")
 	npoints := 0
-	lattice.Enumerate(fields, k, func(idx []int, dev int) {
+	keyPrefix := ""
+	visit := func(idx []int, dev int) {
 		pt := append([]int{}, idx...)
 		c.Affinity(npoints)
 		npoints++
@@ -385,9 +414,9 @@ func runC03(c *core.Ctx) {
 			if cf.entry == "form" && dev > 1 && !c.Thorough() {
 				continue // quick: the POST-form entry point only for <= 1 deviation
 			}
-			key := plabel + "|" + cf.String()
+			key := keyPrefix + plabel + "|" + cf.String()
 			c.Case(key, func(t *core.T) {
-				dk := fmt.Sprint(pt[:8], cf.lay, cf.entitySet)
+				dk := fmt.Sprint(pt[:8], pt[9:], cf.lay, cf.entitySet)
 				doc, ok := docCache[dk]
 				if !ok {
 					if len(docCache) > 20000 {
@@ -435,7 +464,37 @@ func runC03(c *core.Ctx) {
 				t.Sample(map[string]interface{}{"case": key, "deviations": dev, "model": v.String(), "impl": harness.ErrClass(err)})
 			})
 		}
+	}
+	lattice.Enumerate(fields, k, visit)
+
+	// second pass: the full product of the four option fields (confirmation method, AllowIDPInitiated, Issuer Format, unsolicited)
+	// with at most one addressing field away from correct, on the XML entry point with the default audience handling
+	c.Group("options-product-x-single-deviation")
+	keyPrefix = "opt|"
+	optFields := append([]lattice.Field{}, fields...)
+	for i := 7; i < len(optFields); i++ {
+		optFields[i].Weight = func(int) int { return 0 }
+	}
+	allCfgs := cfgs
+	cfgs = nil
+	for _, cf := range allCfgs {
+		if cf.entry == "xml" && cf.validator == "nil" && cf.entitySet {
+			cfgs = append(cfgs, cf)
+		}
+	}
+	lattice.Enumerate(optFields, 1, func(idx []int, dev int) {
+		opts := 0
+		for i := 7; i < len(idx); i++ {
+			if idx[i] != 0 {
+				opts++
+			}
+		}
+		if opts+dev <= k {
+			return // already visited by the first pass
+		}
+		visit(idx, dev+opts)
 	})
+	cfgs = allCfgs
 
 	c.Affinity(-1)
 	// artifact level: Issuer x Status on the ArtifactResponse itself
